@@ -188,7 +188,7 @@ var mutants = []Mutant{
 	{"C02", "max-age-zero-not-validated", "roundtripper.go", [][2]string{{"needsValidation = ccReq.NoCache() || validateNow ||", "needsValidation = ccReq.NoCache() ||"}}, "C02.1", "D60"},
 	{"C02", "immutable-overrides-max-age-zero", "roundtripper.go", [][2]string{{"ccResp.Immutable() && !ccReq.NoCache() && !validateNow &&", "ccResp.Immutable() && !ccReq.NoCache() &&"}}, "C02.1", "D60"},
 	// ---- reverts of the repairs D61-D73
-	{"C07", "dots-removed-before-decoding", "internal/urlkeyer.go", [][2]string{{"normalized = base.ResolveReference(&ref)", "normalized = base.ResolveReference(u)"}}, "C07.9", "D61"},
+	{"C07", "dots-removed-before-decoding", "internal/urlkeyer.go", [][2]string{{"normalized := base.ResolveReference(&ref)", "normalized := base.ResolveReference(u)"}}, "C07.9", "D61"},
 	{"C09", "te-table-key-not-canonical", "internal/normalization.go", [][2]string{{"\t\t\t\"Te\", // canonical form", "\t\t\t\"TE\", // canonical form"}}, "C09.11", "D62"},
 	{"C17", "entry-id-not-compared", "internal/responsecache.go", [][2]string{{"\tif entry.ID != responseKey {", "\tif false && entry.ID != responseKey {"}}, "C17.6", "D63"},
 	{"C10", "stored-body-not-read", "internal/entry.go", [][2]string{{"\tbody, err := io.ReadAll(r.Body)\n\t_ = r.Body.Close()\n\tif err != nil {\n\t\treturn nil, errors.Join(errInvalidResponse, fmt.Errorf(\"incomplete body: %w\", err))\n\t}\n\tr.Body = io.NopCloser(bytes.NewReader(body))\n", ""}}, "C10.15", "D64"},
@@ -216,6 +216,11 @@ var mutants = []Mutant{
 	{"C12", "validate-now-from-raw-argument", "roundtripper.go", [][2]string{{"validateNow := hasReqMaxAge && reqMaxAge == 0", "validateNow := ccReq[\"max-age\"] == \"0\""}}, "C12.14", "C12-8"},
 	{"C15", "get-reads-a-limited-view", "store/fscache/fscache.go", [][2]string{{"data, err := io.ReadAll(f)", "data, err := io.ReadAll(io.LimitReader(f, 32<<20))"}}, "C15.5", "C15-7"},
 	{"C19", "variant-from-response-request", "roundtripper.go", [][2]string{{"_ = r.rs.StoreResponse(req, resp, urlKey, refs, start, end, refIndex)", "_ = r.rs.StoreResponse(cmp.Or(resp.Request, req), resp, urlKey, refs, start, end, refIndex)"}}, "C19.10", "C19-8"},
+	// ---- reverts of the repairs D77-D81
+	{"C10", "sie-leaves-origin-body-open", "internal/validationresponsehandler.go", [][2]string{{"\t\t\tif resp != nil && resp.Body != nil {\n\t\t\t\t// The origin's error response is not passed on: nobody else will close its body,\n\t\t\t\t// and an open body keeps its connection (and the connection's slot) occupied.\n\t\t\t\t_ = resp.Body.Close()\n\t\t\t}\n", ""}}, "C10.21", "D77"},
+	{"C09", "dot-removal-behind-a-parse", "internal/urlkeyer.go", [][2]string{{"\tbase := &url.URL{Scheme: u.Scheme, Host: u.Host}\n\tnormalized := base.ResolveReference(&ref)\n", "\tnormalized := &ref\n\tif base, err := url.Parse(u.Scheme + \"://\" + u.Host); err == nil {\n\t\tnormalized = base.ResolveReference(&ref)\n\t}\n"}}, "C09.10", "D78"},
+	{"C12", "plus-sign-accepted", "internal/ccdirectives.go", [][2]string{{"if len(r) == 0 || r[0] < '0' || r[0] > '9' {", "if len(r) == 0 || r[0] == '-' {"}}, "C12.18", "D80"},
+	{"C10", "meta-times-unchecked", "internal/entry.go", [][2]string{{"\tif resp.ReceivedAt, timeErr = time.Parse(time.RFC3339Nano, string(parts[2])); timeErr != nil {\n\t\treturn nil, fmt.Errorf(\"%w: response time: %w\", errInvalidMetaLine, timeErr)\n\t}\n", "\tresp.ReceivedAt, _ = time.Parse(time.RFC3339Nano, string(parts[2]))\n"}}, "C10.22", "D81"},
 }
 
 // MutantResult is one row of the kill matrix.
